@@ -17,7 +17,7 @@ REQUIRED_THEOREMS = ['Usid.C04.wf_implies_consistent', 'Usid.C04.model_trace_wf'
                      'Usid.C04.resume_recomputes_only_unmarked', 'Usid.C04.durable_marks',
                      'Usid.C04.durable_marks_model', 'Usid.C04.durable_marks_needs_results_flush',
                      'Usid.C04.model_trace_checkpointed', 'Usid.C04.checkpointed_implies_wf']
-RULE = ('[also: two or three groups without any progress record left by earlier creation-time interruptions] [also: compute() called again ON THE SAME OBJECT after an ordinary error] [also: an older complete group of the same tool with other parameters next to the group at work] [also: the map function itself raising on its first / middle / last call, then compute(override=True) on that survivor] [also: interrupted groups in the LEGACY form - last_pixel attribute only, the status dataset is created by the resumed run] random (N, M, mask, batch, same-file/separate target, fresh/resumed); the clean run is traced through wrappers '
+RULE = ('[also: a user class whose _get_existing_datasets() does not raise when probed before a results group exists] [also: two or three groups without any progress record left by earlier creation-time interruptions] [also: compute() called again ON THE SAME OBJECT after an ordinary error] [also: an older complete group of the same tool with other parameters next to the group at work] [also: the map function itself raising on its first / middle / last call, then compute(override=True) on that survivor] [also: interrupted groups in the LEGACY form - last_pixel attribute only, the status dataset is created by the resumed run] random (N, M, mask, batch, same-file/separate target, fresh/resumed); the clean run is traced through wrappers '
         'around h5py file-modifying calls; then an interruption is injected before EVERY event index - once as a kill-like '
         'stop (graceful survivor after closing the file, kill survivor = the copy taken at the last flush) and once as an '
         'ORDINARY exception raised by that call, after which the library\'s own handlers run (exception survivor); all are checked for '
@@ -58,6 +58,9 @@ def generate(seed, tier):
         # an older, COMPLETE results group of the same tool with other parameters sits next to the one at work
         if rl.random() < 0.4:
             cases[-1]['older'] = True
+        # a user class whose _get_existing_datasets() tolerates the probing call made before any results group exists
+        if rl.random() < 0.4:
+            cases[-1]['guarded'] = True
         # what two or three earlier attempts left behind that were interrupted while their results group was still being
         # created: groups of the right name and parameters WITHOUT any progress record
         if cases[-1]['fresh'] and not cases[-1].get('older') and rl.random() < 0.5:
@@ -128,7 +131,7 @@ def _attempt(d, inp, batch, crash_at=None, snap_dir=None, soft=False, map_raise=
         os.environ[procs.RAISE_ENV] = str(map_raise)
     else:
         os.environ.pop(procs.RAISE_ENV, None)
-    RowProc = procs.make_proc_class()
+    RowProc = procs.make_proc_class(guarded=bool(inp.get('guarded')))
 
     def on_flush(h5f):
         if snap_dir is not None:
